@@ -139,7 +139,9 @@ func (f *Field) sortArgs() (errors []error) {
 						errors = append(errors, valError(av.line, av.col, "%s is not an argument to %s", av.Arg, f.Name))
 					}
 				}
-				f.Args = args
+				if len(errors) == 0 {
+					f.Args = args
+				}
 			}
 		}
 	}
